@@ -532,6 +532,11 @@ def _mapping_from_score_matrix(score_matrix, algorithm='optimal'):
         # estimated_permutation = np.zeros((K,), dtype=np.int)
 
         score_matrix: np.ndarray = score_matrix.copy()
+        if score_matrix.dtype.kind in 'iub':
+            # An integer sentinel (smallest value of the dtype) is not
+            # distinguishable from an equal score. Use floats and -inf.
+            score_matrix = score_matrix.astype(np.float64)
+            neg_inf = float('-inf')
         # score_matrix_flat is a view in score_matrix
         # -> changing score_matrix also changes score_matrix_flat
         score_matrix_flat = score_matrix.reshape(*F, K*K)
